@@ -5,10 +5,10 @@
    resume_loop / resume_proc, run_callbacks, step) and quantify over ALL code tables [codes] (any number of process
    automata of any state type) and ALL states [s] reachable ([reach], Kernel/IntrStep.v) from [init_state] by
    module-level code ([exec_top], any fragment), run() preludes and steps, with no bound on their number.  An
-   execution is followed up to the first step whose callback loop is cut short while process resumptions are still
-   waiting in it ([step_clean]: an exception escaping from the middle of the loop -- invalid yield, a forged event
-   id --, out-of-fuel, or StopSimulation ahead of a _resume); after such a step the real kernel has dropped
-   callbacks and no property is claimed (DESIGN.md section 4, hypothesis (ii)).  The function-level statements
+   execution is followed up to the first step whose callback loop is cut short ([step_clean] fails: an exception
+   escaping from the middle of the loop -- invalid yield, a forged event id -- or out-of-fuel; the StopSimulation of
+   run(until=...) is NOT such a cut since the C03 repair: it is raised after the loop); after such a step the real
+   kernel has dropped callbacks and no property is claimed (DESIGN.md section 4, hypothesis (ii)).  The function-level statements
    (refused, accepted, finish_is_dead, resume_feeds_outcome, yield_*, detach_keeps_others) hold in every state.
 
    Vocabulary (Kernel/Intr.v, Kernel/IntrStep.v, Kernel/IntrInv.v)
